@@ -21,7 +21,7 @@ from .kernel import HarnessError
 
 VERIF = os.path.dirname(os.path.dirname(os.path.abspath(__file__)))
 REPLAYS = os.path.join(VERIF, "replays")
-EVIDENCE = os.path.join(VERIF, "evidence")
+EVIDENCE = os.environ.get("VERIF_EVIDENCE_DIR") or os.path.join(VERIF, "evidence")  # mutant runs must not overwrite evidence
 KNOWN = os.path.join(VERIF, "known_findings.json")
 
 
@@ -112,7 +112,7 @@ def _unb64(d):
 
 def write_replay(prop_id, seed, index, case, sched, violation, tag=""):
     os.makedirs(REPLAYS, exist_ok=True)
-    path = os.path.join(REPLAYS, f"{prop_id}-{seed}-{index}{tag}.json")
+    path = os.path.join(REPLAYS, f"{prop_id}-{seed}-{index}-{violation['clause']}{tag}.json")
     doc = {
         "property": prop_id,
         "seed": seed,
